@@ -117,6 +117,16 @@ func (g *gen) msg(c *c09lib.Cfg, kind, from, denom string) c09lib.M {
 			return c09lib.M{Kind: "multisend", From: from, Amt: a, Outs: []c09lib.Out{{to, sdk.NewCoins(sdk.NewCoin(a[0].Denom, h))}, {to2, sdk.NewCoins(sdk.NewCoin(a[0].Denom, a[0].Amount.Sub(h)))}}}
 		}
 		return c09lib.M{Kind: "multisend", From: from, Amt: a, Outs: []c09lib.Out{{to, a}}}
+	case "eth":
+		amt := int64(r.Intn(2000))
+		if r.Chance(50) {
+			amt = int64(c.MaxSend) + int64(r.Intn(3)) - 1
+		}
+		rem := int64(0)
+		if r.Chance(30) {
+			rem = int64(r.Intn(1000000))
+		}
+		return c09lib.M{Kind: "eth", From: from, To: to, EthAmt: amt, EthRem: rem}
 	case "register_identity_records":
 		g.nmark++
 		return c09lib.M{Kind: "other", From: from, Ty: kind, Fails: false, Mark: fmt.Sprintf("k%d", g.nmark)}
@@ -144,7 +154,7 @@ func main() {
 	}
 	s0, _ := e.Stranger(0)
 	g := &gen{r: r, e: e, people: []string{"a0", "a1", "a2", "a3", s0}}
-	watch := []string{"a0", "a1", "a2", "a3", s0, c09lib.Collector}
+	watch := []string{"a0", "a1", "a2", "a3", "e0", "e1", s0, c09lib.Collector}
 	dist := hx.Counter{}
 	var lines []string
 	var js []interface{}
@@ -184,7 +194,7 @@ func main() {
 				var herr error
 				pp := hx.Try(func() { _, herr = h(msgCtx, m) })
 				if pp != "" {
-					class, errText = 3, "panic in message: "+pp
+					class, errText = 4, "panic in message: "+pp
 					break
 				}
 				if herr != nil {
@@ -198,7 +208,7 @@ func main() {
 		}
 		after := e.Balances(ctx, watch)
 		deltas := c09lib.Deltas(before, after)
-		signers := c09lib.Signers(t.Msgs)
+		signers := c09lib.SignersOf(t)
 		obs := fmt.Sprintf("(mkObs %d %s %s %s %s [])", class, c09lib.DeltasCoq(deltas), e.AcctsCoq(ctx, signers), e.ExecsCoq(ctx),
 			c09lib.StrListCoq(e.MarksPresent(ctx, t.Msgs)))
 		lines = append(lines, fmt.Sprintf("C14Tx %s %s %s %s %s %s %s", e.CfgCoq(c), accts, c09lib.BalsCoq(before), c09lib.StrListCoq(watch),
@@ -208,7 +218,7 @@ func main() {
 			types = append(types, m.Type())
 		}
 		js = append(js, map[string]interface{}{"level": "ante handler + message handlers", "tag": tag, "config": c.JSON(), "tx": t.JSON(), "class": class,
-			"class_meaning": "0 delivered | 1 rejected by ante | 2 message failed | 3 panic", "error": errText, "balance_deltas": deltas, "msg_types": types})
+			"class_meaning": "0 delivered | 1 rejected by ante | 2 message failed | 3 panic in ante | 4 panic in a message after admission", "error": errText, "balance_deltas": deltas, "msg_types": types})
 		weak := uint64(c.NVals) < c.MinVals
 		dist.Inc(fmt.Sprintf("class%d", class))
 		dist.Inc(fmt.Sprintf("weak=%v:class%d", weak, class))
@@ -221,7 +231,7 @@ func main() {
 
 	// ---- systematic sweep: message kind x position x (frozen denom | native) x (healthy | weak network)
 	for _, weak := range []bool{false, true} {
-		for _, k := range kinds {
+		for _, k := range append(append([]string{}, kinds...), "eth") {
 			for pos := 0; pos < 3; pos++ {
 				for _, denom := range []string{"frozen", "ukex", "ubtc"} {
 					if pos > 0 && denom == "ubtc" {
@@ -239,6 +249,21 @@ func main() {
 					for i := 0; i < pos; i++ {
 						ms = append(ms, g.msg(c, "register_identity_records", "a0", ""))
 					}
+					if k == "eth" {
+						// Ethereum native send: one message per transaction, signed by the raw transaction itself
+						if pos > 0 || denom != "ukex" {
+							continue
+						}
+						for _, listed := range []bool{false, true} {
+							c2 := *c
+							if listed {
+								c2.PoorMsgs = append(append([]string{}, c.PoorMsgs...), "ethereum_tx")
+							}
+							c2.Black = []string{"frozen", "ukex"} // the native token on the blacklist is still not frozen
+							run(&c2, c09lib.TxSpec{Fee: fee(200), Msgs: []c09lib.M{g.msg(&c2, "eth", "e0", "")}, Seqs: []uint64{0}, SigOK: true}, "sweep-eth")
+						}
+						continue
+					}
 					ms = append(ms, g.msg(c, k, "a0", denom))
 					if pos == 1 {
 						ms = append(ms, c09lib.M{Kind: "send", From: "a0", To: "a1", Amt: sdk.NewCoins(sdk.NewInt64Coin("ukex", 5))})
@@ -247,6 +272,21 @@ func main() {
 				}
 			}
 		}
+	}
+	// freeze matrix: both switches x membership in both lists, for a bank send of the token and for a fee paid in it
+	for mask := 0; mask < 16; mask++ {
+		c := baseCfg()
+		c.EnBlack, c.EnWhite = mask&1 != 0, mask&2 != 0
+		c.Black, c.White = []string{"frozen"}, []string{"ukex", "xeth"}
+		if mask&4 != 0 {
+			c.Black = append(c.Black, "ubtc")
+		}
+		if mask&8 != 0 {
+			c.White = append(c.White, "ubtc")
+		}
+		run(c, c09lib.TxSpec{Fee: fee(150), Msgs: []c09lib.M{{Kind: "send", From: "a2", To: "a3", Amt: sdk.NewCoins(sdk.NewInt64Coin("ubtc", 5))}}, Seqs: []uint64{0}, SigOK: true}, "freeze-matrix-send")
+		run(c, c09lib.TxSpec{Fee: fee(150), Msgs: []c09lib.M{g.msg(c, "register_identity_records", "a2", ""), {Kind: "send", From: "a2", To: "a3", Amt: sdk.NewCoins(sdk.NewInt64Coin("ubtc", 5))}}, Seqs: []uint64{0}, SigOK: true}, "freeze-matrix-send")
+		run(c, c09lib.TxSpec{Fee: []sdk.Coin{sdk.NewInt64Coin("ubtc", 50)}, Msgs: []c09lib.M{{Kind: "send", From: "a2", To: "a3", Amt: sdk.NewCoins(sdk.NewInt64Coin("ukex", 5))}}, Seqs: []uint64{0}, SigOK: true}, "freeze-matrix-fee")
 	}
 	// weak network: native sends exactly at / around the limit, at each position
 	for pos := 0; pos < 3; pos++ {
@@ -284,6 +324,33 @@ func main() {
 		run(c, c09lib.TxSpec{Fee: fee(150), Msgs: []c09lib.M{g.msg(c, "upsert_token_info", "a2", "")}, Seqs: []uint64{0}, SigOK: true}, "minvalidators-cast")
 	}
 
+	// custody settings on the signer: bank send refused when custodians exist, custody send needs the reward and is parked
+	for _, cu := range []c09lib.Cust{{"a1", true, 2}, {"a1", true, 0}, {"a1", true, -1}, {"a1", false, 2}} {
+		for _, k := range []string{"send", "custody_send"} {
+			for _, rew := range []int64{-1, 19, 20, 21} {
+				if k == "send" && rew != -1 {
+					continue
+				}
+				c := baseCfg()
+				c.Custody, c.MinRew = []c09lib.Cust{cu}, 10
+				m := c09lib.M{Kind: k, From: "a1", To: "a2", Amt: sdk.NewCoins(sdk.NewInt64Coin("frozen", 9))}
+				if rew >= 0 {
+					m.Reward = sdk.NewCoins(sdk.NewInt64Coin("ukex", rew))
+				}
+				run(c, c09lib.TxSpec{Fee: fee(150), Msgs: []c09lib.M{m}, Seqs: []uint64{0}, SigOK: true}, "custody")
+			}
+		}
+	}
+	// explicit fee payer, zero gas, fee granter
+	{
+		c := baseCfg()
+		send := c09lib.M{Kind: "send", From: "a0", To: "a2", Amt: sdk.NewCoins(sdk.NewInt64Coin("ukex", 5))}
+		run(c, c09lib.TxSpec{Fee: fee(150), Msgs: []c09lib.M{send}, Seqs: []uint64{0, 0}, SigOK: true, Payer: "a3"}, "fee-payer")
+		run(c, c09lib.TxSpec{Fee: fee(150), Msgs: []c09lib.M{send}, Seqs: []uint64{0}, SigOK: true, Payer: "a0"}, "fee-payer-self")
+		run(c, c09lib.TxSpec{Fee: fee(150), Msgs: []c09lib.M{send}, Seqs: []uint64{0}, SigOK: true, NoGas: true}, "zero-gas")
+		run(c, c09lib.TxSpec{Fee: fee(150), Msgs: []c09lib.M{send}, Seqs: []uint64{0}, SigOK: true, Grant: true}, "fee-granter")
+	}
+
 	// ---- random cases
 	for i := 0; i < *n; i++ {
 		c := randCfg(r)
@@ -302,7 +369,32 @@ func main() {
 			}
 			ms = append(ms, g.msg(c, k, f, d))
 		}
-		signers := c09lib.Signers(ms)
+		t := c09lib.TxSpec{Msgs: ms, SigOK: !r.Chance(3)}
+		if r.Chance(12) { // an Ethereum native send from an Ethereum-style account
+			t.Msgs = []c09lib.M{g.msg(c, "eth", []string{"e0", "e1"}[r.Intn(2)], "")}
+			if r.Chance(15) {
+				t.Msgs = append(t.Msgs, g.msg(c, "send", "a0", "")) // more than one message: the Ethereum branch refuses
+				t.SigOK = false
+			}
+		}
+		if r.Chance(10) {
+			t.Payer = g.people[r.Intn(4)]
+		}
+		t.NoGas, t.Grant = r.Chance(2), r.Chance(2)
+		if r.Chance(15) {
+			c.MinRew = uint64(r.Intn(30))
+			for _, n := range []string{"a0", "a1", "a2"} {
+				if r.Chance(40) {
+					c.Custody = append(c.Custody, c09lib.Cust{Name: n, Enabled: r.Chance(80), Custodians: r.Intn(4) - 1})
+				}
+			}
+			for j := range t.Msgs {
+				if t.Msgs[j].Kind == "custody_send" && r.Chance(70) {
+					t.Msgs[j].Reward = sdk.NewCoins(sdk.NewInt64Coin([]string{"ukex", "ukex", "ubtc"}[r.Intn(3)], int64(r.Intn(100))))
+				}
+			}
+		}
+		signers := c09lib.SignersOf(t)
 		seqs := make([]uint64, len(signers))
 		if r.Chance(4) {
 			seqs[r.Intn(len(seqs))] = 1
@@ -319,14 +411,15 @@ func main() {
 		default:
 			f = fee(int64(r.Intn(200)))
 		}
-		run(c, c09lib.TxSpec{Fee: f, Msgs: ms, Seqs: seqs, SigOK: !r.Chance(3)}, "random")
+		t.Fee, t.Seqs = f, seqs
+		run(c, t, "random")
 	}
 
 	pre := "(* written by /verif/harness/cmd/c14 -- observations of the real ante handler and message handlers *)\n" +
 		"From Sekai Require Import Base.Prelude Base.Dec Model.Filters Model.Fees Gen.AnteChain Model.C09Check Model.C14Check.\n"
 	out.WriteFile("pre.v", pre)
 	out.WriteFile("cases.txt", strings.Join(lines, "\n")+"\n")
-	out.WriteJSON("meta.json", map[string]string{"case_type": "c14_case", "mismatch_fn": "c14_mismatches gen_shape gen_wired", "violation_fn": "c14_violations"})
+	out.WriteJSON("meta.json", map[string]string{"case_type": "c14_case", "mismatch_fn": "c14_mismatches gen_shape (mkWiring gen_wired gen_post_handler_installed)", "violation_fn": "c14_violations"})
 	out.WriteJSON("cases.json", js)
 	out.WriteJSON("dist.json", map[string]interface{}{"seed": seed, "cases": len(js), "by_kind": dist})
 	fmt.Fprintf(os.Stderr, "c14: %d cases\n", len(js))
